@@ -1532,6 +1532,8 @@ class Method:
                 "createchannel",
                 "grpcchannel",
                 "operationsclient",
+                "close",
+                "kind",
             },
             keyword.kwlist,
         )
